@@ -113,6 +113,32 @@ def well_typed(e):
             and ("genseed" not in e or (isinstance(e["genseed"], dict) and all(isint(v) for v in e["genseed"].values()))))
 
 
+def corrupt(results, what):
+    """--opt corrupt=res|glob|gen|twin : change one logged digest in the first suitable healthy trace."""
+    for r in results:
+        evs = r.get("events", [])
+        seen = {}
+        for k, e in enumerate(evs):
+            if what == "res" and e["ev"] == "CallInt":
+                if e["s"] in seen and evs[seen[e["s"]]]["res"] == e["res"]:
+                    e["res"] += 1000
+                    return e["id"]
+                seen[e["s"]] = k
+            if what == "glob" and e["ev"] == "CallInt" and k > 1 and e["glob"] == evs[k - 1]["glob"]:
+                e["glob"] += 1000
+                return e["id"]
+            if what == "gen" and e["ev"] == "CallInt" and k > 1:
+                e["gens"]["g2"] += 1000
+                return e["id"]
+            if what == "twin" and e["ev"] == "CallGen":
+                if e["g"] != seen.get("g", e["g"]) and evs[seen["k"]]["res"] == e["res"]:
+                    e["gens"][e["g"]] += 1000         # the twin ends in a different state
+                    return e["id"]
+                if "g" not in seen and all(x["ev"] != "CallGen" for x in evs[:k]):
+                    seen = {"g": e["g"], "k": k}
+    return None
+
+
 def validate_and_report(chk, cases, results):
     events = []
     for r in results:
@@ -126,6 +152,10 @@ def validate_and_report(chk, cases, results):
                 events += r["events"]
     by_id = {e["id"]: e for e in events if "id" in e}
     case_of = {c["tr"]: c for c in cases}
+    by_tr = {}
+    for x in events:
+        if "tr" in x:
+            by_tr.setdefault(x["tr"], []).append(x)
     rej = chk.validate("RngStreamsTrace", events, stateful=True, group_key="tr")
     for rid, clause, _ in rej:
         e = by_id.get(rid, {})
@@ -134,12 +164,15 @@ def validate_and_report(chk, cases, results):
         extra = None
         if case is not None:
             extra = {"failing_step": step, "op": case["ops"][step - 1] if 0 < step <= len(case["ops"]) else "Reset",
-                     "events_up_to_failure": [x for x in events if x.get("tr") == case["tr"]][:step + 1]}
+                     "events_up_to_failure": by_tr.get(case["tr"], [])[:step + 1]}
         chk.violation(rid, clause, case=case, event=e, extra=extra)
     return events, rej
 
 
 def run(chk, opts):
+    import time
+    t0 = time.time()
+    phases = {}
     thorough = chk.tier == "thorough"
     # 1. design: exhaustive model checking (runs in the background while the histories are replayed)
     from concurrent.futures import ThreadPoolExecutor
@@ -164,9 +197,13 @@ def run(chk, opts):
     chk.notes["graph"] = {"states": len(edges), "edges": nedges, "edge_labels": len(labels), "covering_walks": len(walks),
                           "walk_ops": sum(len(w) for w in walks)}
     only = set(opts["entry"].split(";")) if "entry" in opts else None
+    phases["graph_s"] = round(time.time() - t0, 1)
     cases = build_cases(chk, walks, thorough, only)
     chk.add_cases(cases)
     results = execute_cases(execute, cases, repo=chk.repo, chunksize=2)
+    if "corrupt" in opts:          # self-test of the binding: falsify ONE recorded observation, the trace spec must reject it
+        chk.notes["corrupted"] = corrupt(results, opts["corrupt"])
+    phases["replay_done_s"] = round(time.time() - t0, 1)
     # join the design-level runs
     try:
         r = f_design.result()
@@ -200,8 +237,10 @@ def run(chk, opts):
         chk.machinery.append("non-vacuity: witness histories not found: %s" % sorted(set(w.violated)))
     chk.notes["witness_histories_found"] = sorted(set(w.violated))
     pool.shutdown()
+    phases["design_joined_s"] = round(time.time() - t0, 1)
     events, rej = validate_and_report(chk, cases, results)
-    from .. import lib_seeded
+    phases["validated_s"] = round(time.time() - t0, 1)
+    chk.notes["phases"] = phases
     nent = len({c["entry"] for c in cases})
     chk.rule = ("every edge of the labelled state graph of RngStreams (%d states, %d transitions, <=%d ops; %d covering walks) plus "
                 "%d random histories per entry point (seed %d), each replayed on each of %d seed-accepting entry point variants "
